@@ -864,14 +864,15 @@ def step_specs(draw, method, kinds=('default',) * 5 + ('min', 'max', 'scalar', '
     elif kind == 'geo':
         # short geometric user sequence: k derivative estimates (3..8), largest step a drawn fraction of the
         # certified reach (or of 1 for entire programs), so that the documented extrapolation order matters
-        spec['k'] = draw(st.sampled_from([3, 3, 3, 4, 4, 5, 6, 7, 8]))
+        spec['k'] = draw(st.sampled_from([3, 3, 3, 3, 4, 4, 5, 6, 8]))
         spec['step_ratio'] = draw(st.sampled_from([1.6, 2.0, 2.0, 3.0, 4.0]))
-        spec['log10_frac'] = round(draw(st.floats(-2.5, -0.3)), 3)
+        spec['log10_frac'] = round(draw(st.floats(-2.0, -0.3)), 3)
         spec['use_exact_steps'] = draw(st.booleans())
     return spec
 
 
 GEO_KINDS = ('default',) * 4 + ('min', 'max', 'scalar', 'options') + ('geo',) * 4
+GEO_KINDS_CSTEP = ('default',) * 3 + ('min', 'max', 'scalar', 'options') + ('geo',) * 5      # complex-step methods
 
 
 def geo_frac(spec):
